@@ -562,18 +562,39 @@ bool vm_ffi_call_cop(VmState *vm, const NvmModule *module, uint32_t import_idx,
                            result, heap, error_msg, error_msg_size);
     }
 
-    /* Build request payload: u32 import_idx + u16 argc + serialized args */
+    /* Build request payload: u32 import_idx + u16 argc + serialized args.
+     * Small requests use the stack buffer; larger ones (long strings, big
+     * arrays) get a heap buffer sized from the values themselves. */
     uint8_t payload[8192];
+    uint8_t *req = payload;
+    uint64_t req_size = 6;
+    for (int i = 0; i < arg_count && i < 16; i++) {
+        req_size += cop_serialized_size(&args[i]);
+    }
+    if (req_size > COP_MAX_PAYLOAD) {
+        snprintf(error_msg, error_msg_size, "COP: request too large (%llu bytes)",
+                 (unsigned long long)req_size);
+        return false;
+    }
+    if (req_size > sizeof(payload)) {
+        req = malloc((size_t)req_size);
+        if (!req) {
+            snprintf(error_msg, error_msg_size, "COP: OOM for request (%llu bytes)",
+                     (unsigned long long)req_size);
+            return false;
+        }
+    }
     uint32_t pos = 0;
-    memcpy(payload + pos, &import_idx, 4);
+    memcpy(req + pos, &import_idx, 4);
     pos += 4;
     uint16_t argc = (uint16_t)arg_count;
-    memcpy(payload + pos, &argc, 2);
+    memcpy(req + pos, &argc, 2);
     pos += 2;
 
     for (int i = 0; i < arg_count && i < 16; i++) {
-        uint32_t n = cop_serialize_value(&args[i], payload + pos, sizeof(payload) - pos);
+        uint32_t n = cop_serialize_value(&args[i], req + pos, (uint32_t)req_size - pos);
         if (n == 0) {
+            if (req != payload) free(req);
             snprintf(error_msg, error_msg_size, "COP: failed to serialize arg %d", i);
             return false;
         }
@@ -581,7 +602,9 @@ bool vm_ffi_call_cop(VmState *vm, const NvmModule *module, uint32_t import_idx,
     }
 
     /* Send request */
-    if (!cop_send(vm->cop_in_fd, COP_MSG_FFI_REQ, payload, pos)) {
+    bool sent = cop_send(vm->cop_in_fd, COP_MSG_FFI_REQ, req, pos);
+    if (req != payload) free(req);
+    if (!sent) {
         /* Pipe broken — cop crashed during our call */
         vm_ffi_cop_stop(vm);
         snprintf(error_msg, error_msg_size,
